@@ -43,6 +43,8 @@ def fails(ctx, path):
     checks = extra.get('defect', [])
     for idx, kind, arg in checks:
         line = core.Line(impl[idx])
+        if kind in ('events', 'writes', 'out-contains') and not line.structured:
+            raise RuntimeError('witness %s: op %d is not a call (%r)' % (path, idx, impl[idx][:60]))
         if kind == 'events':
             if [k for k, _ in line.events] != arg:
                 return False
